@@ -120,7 +120,7 @@ var (
 	guesses    = []float64{0, 0.25, 0.5, 1}
 	tols       = []float64{1e-3, 1e-6, 1e-9}
 	convs      = []float64{1e-8, 1e-12}
-	budgets    = []int{1, 2, 3, 4, 5, 6, 7, 8, 10, 12, 15, 20, 25, 30, 40, 60}
+	budgets    = []int{0, 1, 2, 3, 4, 5, 6, 7, 8, 10, 12, 15, 20, 25, 30, 40, 60}
 )
 
 type rootCase struct {
@@ -347,10 +347,16 @@ func runPw(t pwTable, r *vf.Rec) {
 		qs = append(qs, q{t.xs[k], "knot", k})
 		if k+1 < n {
 			a, b := t.xs[k], t.xs[k+1]
-			qs = append(qs, q{a + (b-a)/2, "interior", k}, q{a + (b-a)/4, "interior", k}, q{a + 3*(b-a)/4, "interior", k}, q{math.Nextafter(b, a), "interior", k}, q{math.Nextafter(a, b), "interior", k})
+			qs = append(qs, q{a + (b-a)/2, "interior", k}, q{a + (b-a)/4, "interior", k}, q{a + (b-a)*0.75, "interior", k}, q{math.Nextafter(b, a), "interior", k}, q{math.Nextafter(a, b), "interior", k})
 		}
 	}
-	qs = append(qs, q{t.xs[0] - 1, "outside", 0}, q{math.Nextafter(t.xs[0], math.Inf(-1)), "outside", 0}, q{t.xs[n-1] + 1, "outside", 0}, q{math.Nextafter(t.xs[n-1], math.Inf(1)), "outside", 0},
+	if t.xs[0]-1 < t.xs[0] { // (at 1e300 a unit step is absorbed)
+		qs = append(qs, q{t.xs[0] - 1, "outside", 0})
+	}
+	if t.xs[n-1]+1 > t.xs[n-1] {
+		qs = append(qs, q{t.xs[n-1] + 1, "outside", 0})
+	}
+	qs = append(qs, q{math.Nextafter(t.xs[0], math.Inf(-1)), "outside", 0}, q{math.Nextafter(t.xs[n-1], math.Inf(1)), "outside", 0},
 		q{math.NaN(), "nan", 0}, q{math.Inf(1), "outside", 0}, q{math.Inf(-1), "outside", 0})
 	layouts := []struct {
 		name   string
@@ -493,6 +499,10 @@ func (p *pwIndex) knots(k int) []float64 {
 // non-uniform knots, several y patterns, lengths around powers of two.
 func longTables() []pwTable {
 	var out []pwTable
+	// strictly increasing knots that are extremely close together (adjacent floats, 4e-13 apart, a table at 1e-15 scale)
+	out = append(out, pwTable{[]float64{0, 4e-13, 1}, []float64{1, 5, -2}}, pwTable{[]float64{0.5, math.Nextafter(0.5, 1), 2}, []float64{0, 7, 3}},
+		pwTable{[]float64{1e-15, 2e-15, 3e-15, 5e-15}, []float64{0.3, -1, 4, 4.5}}, pwTable{[]float64{-1, 1 - 1e-13, 1}, []float64{2, 0, 9}},
+		pwTable{[]float64{1e300, 1.5e300, 1.7e308}, []float64{-3, 0, 3}}, pwTable{[]float64{-5e-324, 0, 5e-324}, []float64{1, 2, 3}})
 	for _, n := range []int{6, 7, 8, 9, 10, 12, 15, 16, 17, 31, 32, 33, 64, 100} {
 		for variant := 0; variant < 3; variant++ {
 			t := pwTable{}
@@ -568,8 +578,8 @@ func (e *enum) CrashSig(i int64, tail string) (string, string) {
 func Spec() *vf.Check {
 	return &vf.Check{
 		ID: "C18", Level: "exploration", BlockSize: 512,
-		Rule: "FindRoot: 229 functions on an interval (linear, cubic, the root exactly at / a hair inside either end of 28 intervals with non-dyadic ends, x^p-c and its mirror image (secant iterations stall), sqrt(x)-c and its mirror image (root near an end), saturating exponential, piecewise-linear with flat segments and kinks, steep ramp, routing-residual shapes, antisymmetric end values, flat-then-steep / steep-then-flat kinks with the root near an end; non-monotone: three roots, damped sine) x derivative {exact,nil,zero,wrong sign,constant slope bound,half the slope,constant 1} x initial guess {min,1/4,1/2,max} x tolerance {1e-3,1e-6,1e-9} x convergence limit {1e-8,1e-12} x budget {1..8,10,12,15,20,25,30,40,60}; every evaluation point logged. " +
-			"Piecewise: every strictly increasing knot vector of length 2..4 (quick) / 2..5 (thorough) from {-2,0,0.1,0.3,0.7,1,10} x every y assignment from {-1,0,0.1,0.3,0.7,5} x queries at every knot, mid/quarter points, the floats adjacent to each knot, below, above, NaN, +-Inf x {contiguous, column view, stepped view} tables; and every ORDERED pair of knot vectors: every lookup in the first followed by every lookup in the second (another array, and the same array rewritten in place), second result against the interpolant. distinct_nontrivial = cases that passed all clauses.",
+		Rule: "FindRoot: 229 functions on an interval (linear, cubic, the root exactly at / a hair inside either end of 28 intervals with non-dyadic ends, x^p-c and its mirror image (secant iterations stall), sqrt(x)-c and its mirror image (root near an end), saturating exponential, piecewise-linear with flat segments and kinks, steep ramp, routing-residual shapes, antisymmetric end values, flat-then-steep / steep-then-flat kinks with the root near an end; non-monotone: three roots, damped sine) x derivative {exact,nil,zero,wrong sign,constant slope bound,half the slope,constant 1} x initial guess {min,1/4,1/2,max} x tolerance {1e-3,1e-6,1e-9} x convergence limit {1e-8,1e-12} x budget {0..8,10,12,15,20,25,30,40,60}; every evaluation point logged. " +
+			"Piecewise: every strictly increasing knot vector of length 2..4 (quick) / 2..5 (thorough) from {-2,0,0.1,0.3,0.7,1,10} x every y assignment from {-1,0,0.1,0.3,0.7,5} x queries at every knot, mid/quarter points, the floats adjacent to each knot, below, above, NaN, +-Inf x {contiguous, column view, stepped view} tables; tables of 6..100 knots and tables whose neighbouring knots are adjacent floats / 4e-13 apart / at 1e-15, 1e300 and denormal scale; and every ORDERED pair of knot vectors: every lookup in the first followed by every lookup in the second (another array, and the same array rewritten in place), second result against the interpolant. distinct_nontrivial = cases that passed all clauses.",
 		Assumptions: []string{"'budget suffices for interval halving' is taken as: slope bound x (max-min)/2^budget < tolerance/2 and slope bound x 2 x convergenceLimit < tolerance/2 (sound for any bracketing method that includes the midpoint every iteration and may stop once the bracket is narrower than twice the convergence limit)", "lattice values only"},
 		Build: func(tier string) vf.Enumeration {
 			maxN := 4
